@@ -60,13 +60,15 @@ CLAIMED = {
         text="Lean theorems over the executable model of iter_find_needle and iter_artifactkit_payloads: for every file content, position, file "
              "kind, non-empty needle, buffer size B>=1 and start, the no-limit scan returns exactly the occurrences >= start, ascending "
              "(needle_exact, via the carry-buffer loop invariant; buffer-size independence, no duplicates, non-negativity as corollaries); under a "
-             "limit the result is a sublist of that answer with soundness (needle_limit_sound) and completeness for occurrences ending before "
-             "the limit (needle_limit_complete). The ArtifactKit scanner reports exactly artifactHits with payload = xor(slice, key) "
+             "limit the exact result and final file position are a closed form in B, start and max_offset (needle_limit_exact, "
+             "needle_limit_reported_iff: the limit is compared with a block start and with an index into the carry buffer - a documented quirk), with "
+             "soundness (needle_limit_sound) and completeness for occurrences ending before the limit (needle_limit_complete, limitKeeps_before) as "
+             "corollaries. The ArtifactKit scanner reports exactly artifactHits with payload = xor(slice, key) "
              "(artifact_exact, artifact_offsets_iff, artifact_payload). Loops are well-founded recursions (termination proved, no fuel).",
         note="CPython bytes.find, slicing and file-object semantics are modelled (bytesFind?/PyFile) and exercised by dedicated streams, not verified; "
              "u32/xor reuse the C20 models. Correspondence: exhaustive over alphabet {00,01,ff} (haystacks <=7 x needles <=3 x B 1..5 x start x limit), "
-             "planted boundary-straddling occurrences for B in {1,3,7,64,8192}, BytesIO and real files. Under a limit the exact cut depends on B and is "
-             "compared as correspondence-only. Empty needle and B=0 are outside the property.",
+             "planted boundary-straddling occurrences for B in {1,3,7,64,8192}, BytesIO and real files. Under a limit the streams are property-relevant with an independent closed-form oracle "
+             "(limits on every block start +-1 and on the buffer index of planted occurrences +-1). Empty needle and B=0 are outside the property.",
         design="§4 C15",
     ),
     "C16": dict(
@@ -198,7 +200,10 @@ CLAIMED = {
              "export-stamp / max-enum precedence is as stated (version_precedence, config_version). Both tables are monotone in (tuple, date), of the "
              "documented shape, and their texts parse to what the real BeaconVersion computes - rechecked by kernel evaluation on the regenerated "
              "tables at every run.",
-        note="Stage theorems cover start_offset = 0 (what BeaconConfig.from_file uses). cstruct struct reads, CPython re (this regex), _strptime "
+        note="Stage theorems hold for every start_offset and maxrange (stage = junk ++ P ++ I searched from |junk|: *_found_at, mz_found_at, "
+             "stage_call_at incl. the exact final file position; the reported offset is absolute and the prepend includes the bytes before "
+             "start_offset - modelled as coded), results are position-independent (pe_position_independent) and histories of helper calls are "
+             "history-independent (pe_history_independent_at). Negative start_offset is outside the PyFile-level model. cstruct struct reads, CPython re (this regex), _strptime "
              "for '%b %d, %Y', datetime validity, int(), bytes.find/rstrip and file objects are modelled and exercised, not verified; struct layouts "
              "and both tables are regenerated from the imported package (tools/gen/pestruct.py, version.py). Correspondence ~20k quick / ~136k thorough "
              "on BytesIO and real files incl. truncations at every struct boundary, all table keys +-1, every key pair.",
